@@ -5,6 +5,7 @@ import shutil
 
 from .version import VERSION
 from .pickle import to_bytes, loads, dumps
+from .atomic_replace import atomicReplace
 
 class Journal(object):
 
@@ -174,6 +175,7 @@ LAST_RECORD_OFFSET_OFFSET = NAME_SIZE + VERSION_SIZE + 4
 class FileJournal(Journal):
 
     def __init__(self, journalFile):
+        self.__journalFileName = journalFile
         self.__journalFile = ResizableFile(journalFile, defaultContent=self.__getDefaultHeader())
         self.__journal = []
         self.__metaStorer = MetaStorer(journalFile + '.meta')
@@ -202,11 +204,14 @@ class FileJournal(Journal):
     def __setLastRecordOffset(self, offset):
         self.__journalFile.write(LAST_RECORD_OFFSET_OFFSET, struct.pack('<I', offset))
 
-    def add(self, command, idx, term):
-        self.__journal.append((command, idx, term))
+    def __packRecord(self, command, idx, term):
         cmdData = struct.pack('<QQ', idx, term) + to_bytes(command)
         cmdLenData = struct.pack('<I', len(cmdData))
-        cmdData = cmdLenData + cmdData + cmdLenData
+        return cmdLenData + cmdData + cmdLenData
+
+    def add(self, command, idx, term):
+        self.__journal.append((command, idx, term))
+        cmdData = self.__packRecord(command, idx, term)
         self.__journalFile.write(self.__currentOffset, cmdData)
         self.__currentOffset += len(cmdData)
         self.__setLastRecordOffset(self.__currentOffset)
@@ -237,10 +242,25 @@ class FileJournal(Journal):
         self.__setLastRecordOffset(currentOffset)
 
     def deleteEntriesTo(self, entryTo):
+        # The kept entries are written to a new file which then replaces the journal atomically:
+        # a crash at any moment leaves either the old or the new journal, never a part of it.
         journal = self.__journal[entryTo:]
-        self.clear()
+        tmpFileName = self.__journalFileName + '.tmp'
+        if os.path.exists(tmpFileName):
+            os.remove(tmpFileName)
+        tmpFile = ResizableFile(tmpFileName, defaultContent=self.__getDefaultHeader())
+        currentOffset = FIRST_RECORD_OFFSET
         for entry in journal:
-            self.add(*entry)
+            cmdData = self.__packRecord(*entry)
+            tmpFile.write(currentOffset, cmdData)
+            currentOffset += len(cmdData)
+        tmpFile.write(LAST_RECORD_OFFSET_OFFSET, struct.pack('<I', currentOffset))
+        tmpFile._destroy()
+        self.__journalFile._destroy()
+        atomicReplace(tmpFileName, self.__journalFileName)
+        self.__journalFile = ResizableFile(self.__journalFileName, defaultContent=self.__getDefaultHeader())
+        self.__journal = journal
+        self.__currentOffset = currentOffset
 
     def _destroy(self):
         self.__journalFile._destroy()
